@@ -70,65 +70,58 @@ pub fn number_to_string(n: f64) -> String {
         return "0".to_string();
     }
 
-    let abs_n = n.abs();
+    // `{:e}` yields the shortest decimal digits that read back to the same
+    // double, as `d[.ddd]e<exp>`: exactly the digit string and scale that
+    // Number::toString lays out.
+    let sci = format!("{:e}", n.abs());
+    let (mantissa, exponent) = sci.split_once('e').unwrap_or((sci.as_str(), "0"));
+    let digits: String = mantissa.chars().filter(|c| *c != '.').collect();
+    let exponent: i32 = exponent.parse().unwrap_or(0);
 
-    // Check if it's an integer that can be represented exactly
-    if math::trunc(n) == n && abs_n < 1e21 {
-        // Format as integer (no decimal point)
-        return format!("{:.0}", n);
+    let mut out = String::new();
+    if n < 0.0 {
+        out.push('-');
     }
-
-    // Very small numbers (absolute value < 1e-6) use exponential notation
-    // Very large numbers (absolute value >= 1e21) use exponential notation
-    if !(1e-6..1e21).contains(&abs_n) {
-        // Use exponential notation
-        format_exponential(n)
-    } else {
-        // Use decimal notation
-        // We need to produce the shortest representation that round-trips
-        format_decimal(n)
-    }
+    layout_number_digits(&digits, exponent, &mut out);
+    out
 }
 
-/// Format a number in exponential notation matching JavaScript's output
-fn format_exponential(n: f64) -> String {
-    // Get the exponent
-    let abs_n = n.abs();
-    let exponent = math::floor(math::log10(abs_n)) as i32;
-    let mantissa = n / math::powi(10_f64, exponent);
-
-    // Format mantissa - remove trailing zeros after decimal point
-    let mantissa_str = if math::trunc(mantissa) == mantissa {
-        format!("{:.0}", mantissa)
-    } else {
-        let s = format!("{}", mantissa);
-        // Remove trailing zeros but keep at least one digit after decimal
-        s.trim_end_matches('0').to_string()
-    };
-
-    // Format exponent with sign
-    if exponent >= 0 {
-        format!("{}e+{}", mantissa_str, exponent)
-    } else {
-        format!("{}e{}", mantissa_str, exponent)
-    }
-}
-
-/// Format a number in decimal notation matching JavaScript's output
-fn format_decimal(n: f64) -> String {
-    // Use Rust's default formatting which handles most cases
-    let s = format!("{}", n);
-
-    // Remove trailing zeros after decimal point (but keep at least one digit)
-    if s.contains('.') {
-        let trimmed = s.trim_end_matches('0');
-        if trimmed.ends_with('.') {
-            format!("{}0", trimmed)
-        } else {
-            trimmed.to_string()
+/// Lay out shortest digits `d1 d2 .. dk` denoting `d1.d2..dk * 10^exponent`
+/// in the notation ECMAScript prescribes for Number::toString (radix 10).
+fn layout_number_digits(digits: &str, exponent: i32, out: &mut String) {
+    let k = digits.len() as i32;
+    // position of the decimal point relative to the first digit
+    let n = exponent + 1;
+    if k <= n && n <= 21 {
+        // integer: digits followed by n - k zeros
+        out.push_str(digits);
+        for _ in 0..(n - k) {
+            out.push('0');
         }
+    } else if 0 < n && n <= 21 {
+        // decimal point inside the digits
+        let point = n as usize;
+        out.push_str(digits.get(..point).unwrap_or(digits));
+        out.push('.');
+        out.push_str(digits.get(point..).unwrap_or(""));
+    } else if -6 < n && n <= 0 {
+        // 0.000ddd
+        out.push_str("0.");
+        for _ in 0..(-n) {
+            out.push('0');
+        }
+        out.push_str(digits);
     } else {
-        s
+        // exponent notation: d[.ddd]e(+|-)x
+        let rest = digits.get(1..).unwrap_or("");
+        out.push_str(digits.get(..1).unwrap_or(digits));
+        if !rest.is_empty() {
+            out.push('.');
+            out.push_str(rest);
+        }
+        out.push('e');
+        out.push(if exponent >= 0 { '+' } else { '-' });
+        out.push_str(&exponent.unsigned_abs().to_string());
     }
 }
 
